@@ -23,9 +23,9 @@ R26c  fidelity: ``encoding=`` is the function's encoding parameter,
 R26d  suffix: the caller (role: method of LintedFile that calls the replacing
       function) passes ``self.path`` as the stat-only input path; the output
       path is ``self.path`` or ``root + suffix + ext`` (or the f-string of the
-      three) with ``root, ext`` from
-      ``os.path.splitext(self.path)``, and with a suffix it is always the
-      latter; the callee uses its input path for ``os.stat`` only.
+      three) with ``root, ext`` from ``os.path.splitext(self.path)``, and with
+      a suffix it is always the latter; the callee uses its input path for
+      ``os.stat`` only.
 R26e  who may write, and when: every write-capable call in src/sqlfluff and
       plugins is in the reviewed table below; the replacing function is called
       only by that LintedFile method and only when ``fix_string()`` reported a
@@ -42,10 +42,10 @@ from __future__ import annotations
 import ast
 
 from ..cfg import Branch, atoms, cfg_of, origins
-from ..index import AnalysisError, FuncNode, arg_of, call_name, calls_in, const, enclosing_function, kwarg, last_attr, module_of, norm, short, walk_local
+from ..index import AnalysisError, arg_of, call_name, calls_in, const, enclosing_function, kwarg, last_attr, module_of, norm, short, walk_local
 from ..iohelpers import (
-    LINTED_FILE, LINTER, MOVERS, TEMP_CREATORS, Writer, all_calls, ancestors, branch_node, fq, fq_expr, in_block, inside,
-    is_self_attr, map_args, param_of, params, qual, root_name, write_kind, write_target,
+    LINTED_FILE, LINTER, Writer, all_calls, ancestors, branch_node, fq, in_block, inside,
+    is_self_attr, map_args, param_of, qual, write_kind, write_target,
 )
 from ..report import construct_of
 
@@ -269,7 +269,6 @@ def _r26c(chk, W) -> None:
     if W.temp is None or W.with_stmt is None or len(W.moves) != 1:
         return
     T, Wi, M = W.temp, W.with_stmt, W.moves[0]
-    Ms = cfg.stmt_of(M)
     chk.require(W.enc_param is not None, "R26c", T, "encoding= of the temp file is not the function's encoding parameter (the file would be re-encoded; a BOM from utf-8-sig would be lost)",
                 detail="encoding= is the encoding parameter")
     nl = kwarg(T, "newline")
